@@ -128,7 +128,12 @@ class BuiltinConverterProvider(ConverterProvider):
 
     def _get_closure_var(self, function_name: str) -> str:
         # the requested name of the function is arbitrary text, the name used in the generated source must be an identifier
-        if function_name.isidentifier() and not iskeyword(function_name):
+        # differing from the outer constants used next to the closure
+        if (
+            function_name.isidentifier()
+            and not iskeyword(function_name)
+            and function_name not in ("_closure_signature", "_stub_function", "_update_wrapper")
+        ):
             return function_name
         return self._name_sanitizer.sanitize(f"converter_{function_name}")
 
